@@ -245,6 +245,51 @@ def unknown_symbol_history(h: Harness, rng):
     h.seen("unknown-symbol-history", nontrivial=failed > 0 and ok > 0)
 
 
+def refinement_parameters_history(h: Harness, rng):
+    """a refinement object that lives as long as the grammar and has parameters of its own (a WeightedStringHandler with its
+    probability matrix): creating and mapping never rewrites them, and the set of creatable strings stays what the matrix
+    says -- a letter of probability 0 at a position is never created there, before or after any number of operations"""
+    import wsgrammar
+    from linear import GE, safe
+    g = wsgrammar.grammar()
+    before = wsgrammar.MATRIX.copy()
+    letters = ["A", "C", "G", "T"]
+    r = NativeRandomSource(rng.randrange(10**6))
+    made = 0
+    for k in range(h.n(40, 300)):
+        kind = rng.choice(["grow", "full", "pigrow"])
+        if k % 3 == 2:
+            rep = GE(g, synth.make_decider(kind, 3, r, g), gene_length=48)
+            st, p = safe(lambda: rep.genotype_to_phenotype(rep.create_genotype(r)))
+        else:
+            st, p = safe(lambda: TreeBasedRepresentation(g, synth.make_decider(kind, 3, r, g)).create_genotype(r))
+        if st != "ok":
+            continue
+        made += 1
+        if not (wsgrammar.MATRIX == before).all():
+            h.fail("WeightedStringHandler.generate", "refinement-parameters-modified",
+                   f"operation #{k} rewrote the probability matrix of the grammar's WeightedStringHandler: {before.tolist()} -> {wsgrammar.MATRIX.tolist()}",
+                   ["weighted-string", k])
+            break
+        todo = [p]
+        while todo:
+            x = todo.pop()
+            if isinstance(x, wsgrammar.Join):
+                todo += [x.l, x.r]
+            elif isinstance(x, wsgrammar.Seq):
+                for pos, ch in enumerate(x.s):
+                    row = before[pos]
+                    if int(sum(row) * 100000) > 0 and ch in letters and row[letters.index(ch)] == 0:
+                        h.fail("WeightedStringHandler.generate", "creatable-set-changed",
+                               f"operation #{k} created the string {x.s!r}: letter {ch!r} has probability 0 at position {pos} (row {row.tolist()})",
+                               ["weighted-string", k, x.s])
+                        todo = []
+                        break
+    wsgrammar.MATRIX[:] = before
+    h.count("refinement-parameters-history:programs", made)
+    h.seen("refinement-parameters-history", nontrivial=made > 10)
+
+
 def corpus():
     """fixed witnesses: a failing production that is the ONLY alternative of a nested abstract symbol / one of two /
     sits below a list, with the failure certain (list always empty) or possible"""
@@ -272,6 +317,7 @@ def run(h: Harness):
     rng = h.rng
     retry_model(h)
     unknown_symbol_history(h, rng)
+    refinement_parameters_history(h, rng)
     for spec in corpus():
         for _ in range(3):
             history(h, spec, rng)
